@@ -2012,7 +2012,13 @@ def load_cfg(module):
 
 
 def generate(module, repo="/repo"):
-    return Module(load_cfg(module), repo).generate()
+    cfg = load_cfg(module)
+    tr = cfg.get("translator")
+    if tr:  # a targets file may name another translator module of harness/ (e.g. "translate_vec" for the
+        #     numpy-vectorised, non-jit helpers); it must expose generate(cfg, repo) -> Lean source
+        import importlib
+        return importlib.import_module(tr).generate(cfg, repo)
+    return Module(cfg, repo).generate()
 
 
 class _Generators(dict):
